@@ -628,6 +628,8 @@ func signChanges() []change {
 			A(fmt.Sprintf("attr-key-%s(%d)", kind, n), false, 1, aattr{akey{Kind: kind, Num: n}, false, "v"})
 		}
 		A(fmt.Sprintf("attr-key-%s(100)", kind), true, 1, aattr{akey{Kind: kind, Num: 100}, true, "v"})
+		A(fmt.Sprintf("attr-key-%s(4)", kind), true, 1, aattr{akey{Kind: kind, Num: 4}, false, []byte("kid")})
+		A(fmt.Sprintf("attr-key-%s(0)", kind), true, 1, aattr{akey{Kind: kind, Num: 0}, true, "v"})
 		A(fmt.Sprintf("attr-key-%s(100)", kind), false, 0, aattr{akey{Kind: kind, Num: 100}, false, "v"})
 	}
 	A("attr-key-int(-300)", true, 1, aattr{akey{Kind: "int", Num: -300}, false, []any{int64(1)}})
